@@ -484,6 +484,10 @@ class Inliner:
                 if self._value_uses(h):
                     self.log.append(f"{h.key}: new, kept (used as a value)")
                     continue
+                # calls inside this helper may have been replaced since `candidates` looked at it
+                h.body = _strip_doc(h.node.body)  # type: ignore[attr-defined]
+                if not h.is_gen and not h.returns_ok():
+                    h.tail_only = True
                 done, left = self._inline_everywhere(h)
                 if done and not left:
                     h.container.remove(h.node)  # type: ignore[arg-type]
@@ -535,7 +539,8 @@ class Inliner:
                 # the helper's global names must mean the same at the call site: same module, and no local of
                 # the caller shadows one of them
                 cf = NameFacts(fn)
-                if tree is not home or (free & (set(cf.stores) | cf.special)) and not h.local:
+                foreign = tree is not home and not (home is not None and self._same_globals(h, free, home, tree))
+                if foreign or (free & (set(cf.stores) | cf.special)) and not h.local:
                     left += sum(1 for n in _own_nodes(fn) if self._is_call_of(n, h))
                     continue
                 if not any(self._is_call_of(n, h) for n in _own_nodes(fn)):
@@ -550,6 +555,60 @@ class Inliner:
             for n in ast.walk(tree):
                 pass
         return done, left
+
+    def _module_bindings(self, tree: ast.Module) -> Dict[str, object]:
+        """What each name bound at module level means: ("import", module) / ("from", module, name) for imports
+        (relative ones resolved against the module's own name), ("def", id) for anything defined here."""
+        cache = self.__dict__.setdefault("_bindings_cache", {})
+        if id(tree) in cache:
+            return cache[id(tree)]  # type: ignore[no-any-return]
+        me = next((k for k, t in self.trees.items() if t is tree), "")
+        out: Dict[str, object] = {}
+        for st in ast.walk(tree):
+            if isinstance(st, ast.Import):
+                for a in st.names:
+                    out[a.asname or a.name.split(".")[0]] = ("import", a.name if a.asname else a.name.split(".")[0])
+            elif isinstance(st, ast.ImportFrom):
+                base = st.module or ""
+                if st.level:
+                    parts = me.split(".")
+                    # a module `pkg.sub.mod`: level 1 is `pkg.sub`
+                    anchor = parts[: len(parts) - st.level] if len(parts) >= st.level else []
+                    base = ".".join(anchor + ([st.module] if st.module else []))
+                for a in st.names:
+                    out[a.asname or a.name] = ("from", base, a.name)
+        for st in tree.body:
+            if isinstance(st, (ast.FunctionDef, ast.AsyncFunctionDef, ast.ClassDef)):
+                out[st.name] = ("def", id(st))
+            elif isinstance(st, (ast.Assign, ast.AnnAssign, ast.AugAssign)):
+                for n in ast.walk(st):
+                    if isinstance(n, ast.Name) and isinstance(n.ctx, ast.Store):
+                        out[n.id] = ("def", id(st))
+        cache[id(tree)] = out
+        return out
+
+    def _same_globals(self, h: Helper, free: Set[str], home: ast.Module, tree: ast.Module) -> bool:
+        """A call in another module may take the helper's body when (a) that module imports the helper by name from
+        its home module and (b) every global name the body reads means the same thing there: an identical import
+        in both modules, or a builtin neither module rebinds."""
+        if h.local or h.same_module_only or h.same_class_only or h.receiver is not None:
+            return False
+        home_name = next((k for k, t in self.trees.items() if t is home), None)
+        here = self._module_bindings(tree)
+        there = self._module_bindings(home)
+        if h.cls is None and here.get(h.name) != ("from", home_name, h.name):
+            return False
+        # (a member of a class is reached through an object; its name is the only one of that spelling in the
+        # package - `candidates` - so the attribute call can mean no other function of the package)
+        # (names read by the body; the annotations of the signature are not evaluated at the call site)
+        in_body = {n.id for st in h.node.body for n in ast.walk(st) if isinstance(n, ast.Name) and isinstance(n.ctx, ast.Load)}  # type: ignore[attr-defined]
+        for name in free & in_body:
+            a, b = there.get(name), here.get(name)
+            if a is None and b is None:
+                continue  # a builtin in both
+            if a is None or b is None or a != b or a[0] == "def":  # type: ignore[index]
+                return False
+        return True
 
     def _fresh(self, fn: ast.AST, h: Helper, binding: Dict[str, ast.expr]) -> Tuple[Dict[str, str], Dict[str, ast.expr], List[ast.stmt]]:
         """Renames for the helper's locals, substitutions for its parameters, and parameter bindings that
@@ -700,8 +759,10 @@ class Inliner:
                     if binding is None:
                         continue
                     awaited = _parent_await(s, call)
-                    if h.is_async != (awaited is not None):
+                    if h.is_async and awaited is None:
                         continue
+                    if not h.is_async:
+                        awaited = None  # `await helper(...)` with a plain helper: its value is what is awaited
                     target = awaited if awaited is not None else call
                     if ef is not None:
                         # an argument is substituted if it is simple, or a constant accessor object
@@ -715,9 +776,14 @@ class Inliner:
                                 return False
                             if _simple(a) or _accessor(a):
                                 return True
-                            return _count_loads(ef, p) == 1 and _unconditional_loads(ef, p) == 1 and not bound
+                            if not (_count_loads(ef, p) == 1 and _unconditional_loads(ef, p) == 1 and not bound):
+                                return False
+                            # an argument that calls something is evaluated before the helper's body: it may only
+                            # move to a place before which the body calls nothing
+                            return not _has_call(a) or not _call_before(ef, p)
 
-                        if all(substitutable(p, a) for p, a in binding.items()):
+                        effectful = [p for p, a in binding.items() if not (_simple(a) or _accessor(a)) and _has_call(a)]
+                        if len(effectful) <= 1 and all(substitutable(p, a) for p, a in binding.items()):
                             new = _Rename({}, binding).visit(copy.deepcopy(ef))
                             if _replace_expr(s, target, new):
                                 return True
@@ -766,6 +832,35 @@ class Inliner:
                     blk[i:i + 1] = pre + new_body
                     return True
         return None
+
+
+def _has_call(e: ast.AST) -> bool:
+    return any(isinstance(n, (ast.Call, ast.Await, ast.Yield, ast.YieldFrom, ast.NamedExpr)) for n in ast.walk(e))
+
+
+def _call_before(e: ast.expr, name: str) -> bool:
+    """Is a call completed before the (first) load of `name`, in evaluation order?  Children are evaluated in
+    field order and a node after its children, which is Python's order for every expression form but the
+    interleaving of a dict display's keys and values (taken as: some call comes first)."""
+    state = {"calls": 0, "found": None}
+
+    def walk(n: ast.AST) -> None:
+        if state["found"] is not None:
+            return
+        if isinstance(n, ast.Name) and n.id == name and isinstance(n.ctx, ast.Load):
+            state["found"] = state["calls"]
+            return
+        if isinstance(n, (ast.Dict, ast.ListComp, ast.SetComp, ast.DictComp, ast.GeneratorExp, ast.Lambda)) and _has_call(n):
+            state["calls"] += 1
+        for c in ast.iter_child_nodes(n):
+            walk(c)
+            if state["found"] is not None:
+                return
+        if isinstance(n, (ast.Call, ast.Await, ast.Yield, ast.YieldFrom, ast.NamedExpr)):
+            state["calls"] += 1
+
+    walk(e)
+    return bool(state["found"])
 
 
 def _accessor(a: ast.expr) -> bool:
